@@ -479,6 +479,8 @@ mod sh {
     /// follows a script of task ids: one entry per recorded event (the owner of that event)
     pub struct ScriptSched {
         pub script: Vec<usize>,
+        /// event kinds of the script entries (trace replay only; empty for step-indexed scripts)
+        pub kinds: Vec<u32>,
         pub started: bool,
         /// one entry per step of the model (events that are not model steps do not count)
         pub per_step: bool,
@@ -495,6 +497,20 @@ mod sh {
         }
         fn next_task(&mut self, runnable: &[&Task], current: Option<TaskId>, _y: bool) -> Option<TaskId> {
             let pos = if self.per_step { NSTEPS.with(|n| n.get()) } else { NEVENTS.with(|n| n.get()) };
+            // A worker that has just announced condvar.wait() (event 45) still holds the queue mutex at
+            // the yield point of its release. If the trace shows that it is woken later by a
+            // notification that comes next, it was registered as a waiter before that notification:
+            // let it run into the wait now.
+            if !self.per_step && pos > 0 && pos <= self.kinds.len() && self.kinds[pos - 1] == 45 {
+                let t = self.script[pos - 1];
+                if let Some(j) = (pos..self.script.len()).find(|&j| self.script[j] == t) {
+                    if self.kinds[j] == 46 && (pos..j).any(|k| self.kinds[k] == 20 || self.kinds[k] == 27) {
+                        if let Some(task) = runnable.iter().find(|x| usize::from(x.id()) == t) {
+                            return Some(task.id());
+                        }
+                    }
+                }
+            }
             if let Some(&want) = self.script.get(pos) {
                 if let Some(t) = runnable.iter().find(|t| usize::from(t.id()) == want) {
                     return Some(t.id());
@@ -655,7 +671,8 @@ mod sh {
     pub fn exec_mt(a: &[&str]) -> (String, String) {
         let (kind, workers, input, dropa, trace) = (a[1], a[2].parse::<u32>().unwrap(), a[3], parse_drop(a[4]), parse_trace(a[5]));
         let script: Vec<usize> = trace.iter().map(|e| e.0).collect();
-        let sched = ScriptSched { script, started: false, per_step: false, pos: 0 };
+        let kinds: Vec<u32> = trace.iter().map(|e| e.1).collect();
+        let sched = ScriptSched { script, kinds, started: false, per_step: false, pos: 0 };
         let run = run_once(sched, kind, workers, input, dropa);
         let obs = if run.events != trace {
             let k = run.events.iter().zip(trace.iter()).take_while(|(x, y)| x == y).count();
@@ -674,7 +691,7 @@ mod sh {
     pub fn exec_sched(a: &[&str]) -> (String, String) {
         let (kind, workers, input, dropa) = (a[1], a[2].parse::<u32>().unwrap(), a[3], parse_drop(a[4]));
         let script: Vec<usize> = if a[5] == "-" { vec![] } else { a[5].split(',').map(|x| x.parse().unwrap()).collect() };
-        let sched = ScriptSched { script, started: false, per_step: true, pos: 0 };
+        let sched = ScriptSched { script, kinds: vec![], started: false, per_step: true, pos: 0 };
         let run = run_once(sched, kind, workers, input, dropa);
         if std::env::var("MT_DEBUG").is_ok() {
             eprintln!("events: {}", trace_string(&run.events));
@@ -811,6 +828,19 @@ mod sh {
             for (run, sk) in runs {
                 let line = format!("mt {} {} {} {} {}", kind, w, input, dropa, trace_string(&run.events));
                 if seen.insert(line.clone()) {
+                    // A case must be replayable from its command line. The scripted scheduler only knows
+                    // the order of the events, not of the silent yield points in between, and cannot
+                    // reproduce every recorded execution (about 1 in 5000): those are counted and left
+                    // out; a trace the MODEL does not accept is never dropped here.
+                    if run.panic.is_none() {
+                        let kinds: Vec<u32> = run.events.iter().map(|e| e.1).collect();
+                        let script: Vec<usize> = run.events.iter().map(|e| e.0).collect();
+                        let again = run_once(ScriptSched { script, kinds, started: false, per_step: false, pos: 0 }, kind, *w, input, d);
+                        if again.events != run.events {
+                            dist.bump("not_replayable_dropped");
+                            continue;
+                        }
+                    }
                     dist.bump(&format!("scenario.{}", label));
                     dist.bump(&format!("scheduler.{}", sk));
                     dist.bump(&format!("workers.{}", w));
